@@ -231,7 +231,7 @@ func runC15(w *World, r *Report) {
 	fns := w.RepoFuncs(wirePkgs...)
 	fe := NewFactEngine(w, append(append([]*ssa.Function{}, fns...), w.RepoFuncs("wallet")...))
 
-	r.rule("handlers", "methods implementing the generated GossipAPIServer / NotaryAPIServer / WebhooksAPIServer interfaces (types.Implements)", 18)
+	r.rule("handlers", "methods implementing the generated GossipAPIServer / NotaryAPIServer / WebhooksAPIServer interfaces (types.Implements)", 12)
 	hs := handlersOf(w)
 	var handlerFns []*ssa.Function
 	var inames []string
@@ -247,8 +247,8 @@ func runC15(w *World, r *Report) {
 		}
 	}
 
-	r.rule("D1-slice-to-array", "every [N]byte(x) conversion in the wire-facing packages has the must-fact len(x) >= N (dominating test on the same access path, validator summary, or all callers)", 25)
-	r.rule("D2-submessage-nil", "every field access through a singular protobuf sub-message pointer has the must-fact != nil", 20)
+	r.rule("D1-slice-to-array", "every [N]byte(x) conversion in the wire-facing packages has the must-fact len(x) >= N (dominating test on the same access path, validator summary, or all callers)", 12)
+	r.rule("D2-submessage-nil", "every field access through a singular protobuf sub-message pointer has the must-fact != nil", 10)
 	nD2 := 0
 	for _, fn := range fns {
 		r.seen(shortFn(fn))
@@ -301,7 +301,7 @@ func runC15(w *World, r *Report) {
 	}
 
 	// validate before mutate
-	r.rule("validate-before-mutate", "in every handler (and the helpers it calls directly) no signature / challenge / shape validation is reachable after a call with ledger, awaiting-cache or peer-table effects", 10)
+	r.rule("validate-before-mutate", "in every handler (and the helpers it calls directly) no signature / challenge / shape validation is reachable after a call with ledger, awaiting-cache or peer-table effects", 8)
 	effect := func(in ssa.Instruction) string {
 		switch x := in.(type) {
 		case ssa.CallInstruction:
